@@ -77,7 +77,7 @@ theorem imm_both {env : Env} {η : Hp} {file : AFile} {G : List String} (P : Pro
       cases ty <;> simp [okPrim] at hi
       obtain ⟨⟨hb, hs⟩, hw⟩ := hi
       subst hb; subst hs
-      refine ⟨.int b s v, .int b s v, fun n w => by simp only [Imm.toExpr]; rw [Sem.eval]; rfl, fun gw => ?_, by simp [VRel], ⟨rfl, rfl⟩⟩
+      refine ⟨.int b s v, .int b s v, fun n w => by simp only [Imm.toExpr]; rw [Sem.eval]; rfl, fun gw => ?_, by simp [VRel], ⟨rfl, rfl, hw⟩⟩
       simp only [compileImm, lit, goTy_int]
       have := ev_int (F := F) (ρ := gρ) (w := gw) (b := b) (s := s) (toString_toInt v)
       rw [hw] at this; exact this
